@@ -118,6 +118,10 @@ def alphabet(tier, expanded, extent_a, extent_b=()):
                                    ["hell", 0, 0, None]]])
     for x in sorted(extent_a)[:2 if tier == "quick" else 3]:
         ev.append(["drop", x])
+    # the dimension that exists already "added" again under another label:
+    # refused or not, what was harvested stays where it is
+    if expanded and extent_a:
+        ev.append(["expand_again", 6])
     # labels along two dimensions dropped by one call
     if extent_a and extent_b:
         ev.append(["drop2", sorted(extent_a)[0], sorted(extent_b)[-1]])
@@ -378,6 +382,13 @@ class World:
             m.mem = ex(src)
             m.disk = ex(src)
             m.expanded = True
+        elif kind == "expand_again":
+            try:
+                self.h.expand_dims("c", ev[1])
+            except Exception:
+                pass
+            if m.mem is None and m.disk is not None:
+                m.mem = dict(m.disk)
         elif kind == "drop":
             x = ev[1]
             try:
